@@ -2,6 +2,8 @@
 
 package eval
 
+import "strings"
+
 func init() {
 	vfRegister("VerifC08", VerifC08)
 	vfRegister("VerifC08Copy", VerifC08Copy)
@@ -10,9 +12,15 @@ func init() {
 // vfC08Config builds a caller-owned config with a few entries in every map and
 // a StatelessOperators slice that has spare capacity (an in-place append by the
 // library would be a visible write into the caller's array).
-func vfC08Config(w *vfWorld, opts string) *Config {
+func vfC08Config(w *vfWorld, opts string, shape string) *Config {
 	conf := w.config("keys", opts)
-	delete(conf.OperatorMap, "z") // two operators are enough here; every extra map entry multiplies the iteration orders
+	// two operators are enough here (every extra map entry multiplies the iteration orders), unless the shape calls them
+	if !strings.Contains(shape, "(z)") {
+		delete(conf.OperatorMap, "z")
+	}
+	if !strings.Contains(shape, "(y)") {
+		delete(conf.OperatorMap, "y")
+	}
 	conf.ConstantMap["EXTRA"] = vfInt64("const.EXTRA")
 	conf.CostsMap["variable"] = vfCost("cost.variable")
 	if len(w.order) > 0 {
@@ -37,7 +45,7 @@ func VerifC08(args []string) {
 	tree, ok := refRead(shape)
 	vfAssert(ok, "harness: skeleton readable by the reference reader")
 	w := newWorld(tree, "")
-	conf := vfC08Config(w, opts)
+	conf := vfC08Config(w, opts, shape)
 	if variant == "frozen" {
 		nOpts := len(conf.CompileOptions)
 		nConst := len(conf.ConstantMap)
@@ -87,7 +95,7 @@ func VerifC08(args []string) {
 func VerifC08Copy(args []string) {
 	tree, _ := refRead("(and b0 (p b1) (> i0 KI0))")
 	w := newWorld(tree, "")
-	src := vfC08Config(w, "1010")
+	src := vfC08Config(w, "1010", "")
 	src.CompileOptions[AllowUndefinedVariable] = vfBool("opt.undef")
 	var cp *Config
 	if args[0] == "extend" {
